@@ -104,8 +104,48 @@ def render_layout(f):
     return "\n".join(L) + "\n"
 
 
+def execute_rerun(case):
+    """the edit / re-assemble cycle in one directory with the same error target: what the second run leaves in the -E
+    target has to describe the second run"""
+    o = case["opts"]
+    classes = ["rerun", "E:" + o["E"]]
+    key = "rerun|%s|%s" % (o["E"], ",".join(sorted(k for k, v in o.items() if v and k not in ("E", "x"))))
+    f1, f2 = case["first"], case["second"]
+    argv = argv_of(o, [f1])
+    target = "errs.txt" if o["E"] == "file" else f1["name"] + ".log"
+    with run.Work("c02r") as d:
+        run.write_files(d, {f1["name"] + ".asm": render(f1)})
+        r1 = run.run(argv, d, timeout=60, cpu=30)
+        log1 = (run.read(d, target) or b"").decode("latin-1")
+        run.write_files(d, {f1["name"] + ".asm": render(f2)})
+        r2 = run.run(argv, d, timeout=60, cpu=30)
+        log2 = run.read(d, target)
+        p2 = run.read(d, f1["name"] + ".p")
+    if r1.timed_out or r2.timed_out:
+        return engine.inconclusive("timeout", classes)
+    detail = dict(argv=argv, status1=r1.status, status2=r2.status, log1=log1[:400], log2=(log2 or b"").decode("latin-1")[:400])
+    rx = GNU if o["gnu"] else NATIVE
+    if r1.status != 2 or not rx.search(log1):
+        return engine.bad("first run (faulty source): status %s, %d diagnostics in the -E target"
+                          % (r1.status, len(rx.findall(log1))), key, classes, **detail)
+    if r2.status != 0 or p2 is None:
+        return engine.bad("second run (clean source): status %s, code file %s" % (r2.status, "missing" if p2 is None else "there"),
+                          key, classes, **detail)
+    if log2 is not None and rx.search(log2.decode("latin-1")):
+        return engine.bad("the -E target still holds %d diagnostics after a run without any message"
+                          % len(rx.findall(log2.decode("latin-1"))), key, classes, **detail)
+    return engine.ok(key, classes)
+
+
 @composite
 def strategy_(d, tier):
+    if d.int(0, 99) < 4:
+        o = dict(x=d.weighted([(3, 0), (1, 1), (1, 2)]), n=d.bool(0.3), q=d.bool(0.5), E=d.choice(["file", "file", "bare"]),
+                 gnu=d.bool(0.3))
+        first = dict(name="s0", blocks=[["good", d.int(1, 2)], [d.choice(["err0", "err1", "err2", "err3"]), d.int(1, 3)],
+                                        ["good", 1]])
+        second = dict(name="s0", blocks=[["good", d.int(1, 3)]] + ([["warn", 1]] if False else []))
+        return dict(kind="rerun", first=first, second=second, opts=o)
     if d.int(0, 99) < 14:
         nfiles = d.weighted([(3, 1), (2, 2)])
         o = dict(x=d.weighted([(3, 0), (1, 1)]), n=d.bool(0.3), q=d.bool(0.5), E=d.weighted([(3, "default"), (1, "!1"), (1, "file")]),
@@ -303,6 +343,8 @@ def execute_layout(case):
 def execute(case):
     if case.get("kind") == "layout":
         return execute_layout(case)
+    if case.get("kind") == "rerun":
+        return execute_rerun(case)
     o = case["opts"]
     m = model(case)
     has_undef = any(k == "undef" and c for f in case["files"] for k, c in f["blocks"])
@@ -390,6 +432,8 @@ def execute(case):
 
 
 def show(case):
+    if case.get("kind") == "rerun":
+        return dict(opts=case["opts"], first=case["first"]["blocks"], second=case["second"]["blocks"])
     if case.get("kind") == "layout":
         return dict(opts=case["opts"], files=[(f["name"], f["blocks"], f["fwzp"]) for f in case["files"]])
     return dict(opts=case["opts"], files=[(f["name"], f["blocks"]) for f in case["files"]])
@@ -397,6 +441,10 @@ def show(case):
 
 def fixed_cases(tier):
     out = []
+    for E in ("file", "bare"):
+        for gnu in (False, True):
+            out.append(dict(kind="rerun", first=dict(name="s0", blocks=[["good", 1], ["err0", 2], ["good", 1]]),
+                            second=dict(name="s0", blocks=[["good", 2]]), opts=dict(x=0, n=gnu, q=True, E=E, gnu=gnu)))
     base = dict(x=0, n=False, q=True, E="!2", gnu=False)
     for n in BOUNDARY:
         out.append(dict(files=[dict(name="s0", blocks=[["good", 1], ["err0", n]])], opts=dict(base)))
